@@ -771,7 +771,7 @@ class Exec(BufMixin, FlatMixin):
         if isinstance(base, V.Opaque):
             return V.Opaque()
         if self.is_arr(base):
-            if a in ('reshape', 'transpose'):
+            if a in ('reshape', 'transpose', 'copy'):
                 return FunVal('arrmethod', a, base)
             if a == 'base':
                 if isinstance(base, (ArrView, FlatView)):
@@ -798,6 +798,12 @@ class Exec(BufMixin, FlatMixin):
                 return attrs[a]
             # property or method
             cls = base.cls
+            if cls[0].startswith('<ext'):
+                # object of an external library: its methods exist only as abstract (assumed) contracts
+                key = '%s::%s.%s' % (cls[0], cls[1], a)
+                if key in self.ctx.contracts:
+                    return FunVal('param', a, key)
+                raise OutOfReach('external method %s without an assumed contract' % key)
             r = self.find_method(cls, a)
             if r is not None:
                 mod, qual, node = r
